@@ -31,6 +31,8 @@ pub struct Case {
 	/// stop after this many payments (40: until B refuses; small: B is left with a few HTLCs, so that a later
 	/// feerate change puts it just above its limit rather than far above it)
 	pub max_payments: u32,
+	/// the feerate estimate the bumping node moves to
+	pub bump_to: u32,
 }
 
 const DUST_LIMIT_SAT: u64 = 354;
@@ -150,15 +152,20 @@ pub fn run_case(c: &Case) -> Result<Outcome, (String, String)> {
 			dir ^= 1;
 		}
 	}
+	if std::env::var("MC_TRACE").is_ok() {
+		for o in w.obs.iter() {
+			eprintln!("    {}", crate::world::obs_summary(o));
+		}
+	}
 	let refused_for_dust = refused_in_a_row >= 3 && sent < c.max_payments;
 	// fee bump
 	if c.fee_bump != 0 {
 		let n = if c.fee_bump == 1 { 1 } else { 0 };
-		*w.nodes[n].fee.sat_per_kw.lock().unwrap() = 2500;
+		*w.nodes[n].fee.sat_per_kw.lock().unwrap() = c.bump_to;
 		w.nodes[n].cm.timer_tick_occurred();
 		w.pump();
 		w.run_to_quiescence(600);
-		check(&w, &format!("after node {} raised its feerate estimate to 2500", n), &mut max_seen)?;
+		check(&w, &format!("after node {} raised its feerate estimate to {}", n, c.bump_to), &mut max_seen)?;
 	}
 	// on-chain end: B force-closes B–C with everything pending; its loss is bounded by the dust on that channel
 	let dust_bc = dust_sums(&w, 1, &bc, c.ct).map(|(h, cp, _)| h.max(cp)).unwrap_or(0);
@@ -181,21 +188,35 @@ pub fn cases(thorough: bool) -> Vec<Case> {
 						continue;
 					}
 					for both_ways in [false, true] {
-						v.push(Case { ct, limit_msat, amount_msat, fee_bump, both_ways, multiplier: false, max_payments: 40 });
+						v.push(Case { ct, limit_msat, amount_msat, fee_bump, both_ways, multiplier: false, max_payments: 40, bump_to: 2500 });
 						// the default policy (limit = multiplier x own fee estimate): pre-anchor channels, where a feerate
 						// change moves the dust threshold
 						if ct == Ct::Static && (thorough || (limit_msat == 1_000_000 && amount_msat >= 450_000)) {
-							v.push(Case { ct, limit_msat, amount_msat, fee_bump, both_ways, multiplier: true, max_payments: 40 });
+							v.push(Case { ct, limit_msat, amount_msat, fee_bump, both_ways, multiplier: true, max_payments: 40, bump_to: 2500 });
 							if fee_bump != 0 {
 								for max_payments in if thorough { vec![2u32, 3, 4, 6, 10] } else { vec![3u32, 6] } {
-									v.push(Case { ct, limit_msat, amount_msat, fee_bump, both_ways, multiplier: true, max_payments });
+									v.push(Case { ct, limit_msat, amount_msat, fee_bump, both_ways, multiplier: true, max_payments, bump_to: 2500 });
 									if thorough {
-										v.push(Case { ct, limit_msat, amount_msat, fee_bump, both_ways, multiplier: false, max_payments });
+										v.push(Case { ct, limit_msat, amount_msat, fee_bump, both_ways, multiplier: false, max_payments, bump_to: 2500 });
 									}
 								}
 							}
 						}
 					}
+				}
+			}
+		}
+	}
+	// HTLCs that have an output (and are not counted as dust, even with the library's safety buffer) at the opening
+	// feerate and have none after a large feerate increase: few of them pending, then either funder raises the feerate
+	for multiplier in [true, false] {
+		for fee_bump in [1u8, 2] {
+			for max_payments in if thorough { vec![1u32, 2, 3, 4, 6, 10] } else { vec![2u32, 3, 6] } {
+				for both_ways in [false, true] {
+					if !thorough && both_ways && !multiplier {
+						continue;
+					}
+					v.push(Case { ct: Ct::Static, limit_msat: 3_000_000, amount_msat: 3_000_000, fee_bump, both_ways, multiplier, max_payments, bump_to: 5000 });
 				}
 			}
 		}
